@@ -162,4 +162,479 @@ theorem bed4_read_as_bed (t : FTab) (hn : ∀ r ∈ t.rows, NoTrackName r.chrom)
   simp only [List.map_map, Function.comp_def]
   exact hfin
 
+/-! ## interval lists -/
+
+theorem sw_at_false (c : String) (h : c.toList.contains '@' = false) : sw "@" c = false := by
+  unfold sw
+  have h1 : "@".toList = ['@'] := by decide
+  rw [h1]
+  cases hc : c.toList with
+  | nil => rfl
+  | cons x xs =>
+    rw [hc] at h
+    simp only [List.contains_cons, Bool.or_eq_false_iff] at h
+    simp only [List.isPrefixOf]
+    have : (('@' : Char) == x) = false := by
+      have := h.1
+      cases hx : ('@' == x) with
+      | false => rfl
+      | true =>
+        have := beq_iff_eq.mp hx
+        subst this
+        simp at h
+    rw [this]; rfl
+
+theorem digit_ne_at {c : Char} (h : c.isDigit = true) : c ≠ '@' := by
+  rintro rfl; exact absurd h (by decide)
+
+theorem toString_no_at (i : Int) : (toString i).toList.contains '@' = false := by
+  cases hc : (toString i).toList.contains '@' with
+  | false => rfl
+  | true =>
+    exfalso
+    have hm : '@' ∈ (toString i).toList := List.contains_iff_mem.mp hc
+    by_cases h : 0 ≤ i
+    · rw [toString_toList_nonneg i h] at hm
+      exact digit_ne_at (toDigits_digits _ _ hm) rfl
+    · rw [toString_toList_neg i (by omega)] at hm
+      rcases List.mem_cons.mp hm with h1 | h1
+      · exact absurd h1 (by decide)
+      · exact digit_ne_at (toDigits_digits _ _ h1) rfl
+
+theorem NA_not_digits : NA_STRINGS.all (fun m => !isDigits m) = true := by decide
+
+theorem isNA_of_isDigits (v : String) (h : isDigits v = true) : isNA v = false := by
+  cases hc : isNA v with
+  | false => rfl
+  | true =>
+    exfalso
+    have hm : v ∈ NA_STRINGS := List.contains_iff_mem.mp hc
+    have := List.all_eq_true.mp NA_not_digits v hm
+    rw [h] at this
+    exact absurd this (by decide)
+
+theorem toString_natCast (n : Nat) : toString ((n : Nat) : Int) = toString n := by
+  rw [Int.toString_eq_repr, Int.repr_eq_if]
+  simp
+
+theorem isDigits_toString_nat (n : Nat) : isDigits (toString n) = true := by
+  rw [← toString_natCast]
+  obtain ⟨h1, h2⟩ := toString_digits (n : Int) (by omega)
+  unfold isDigits
+  simp only [Bool.and_eq_true, Bool.not_eq_true', List.isEmpty_eq_false_iff, List.all_eq_true]
+  exact ⟨h1, h2⟩
+
+/-- a chromosome name that survives pandas' dtype inference followed by `astype(str)` -/
+def ChromName (c : String) : Prop := (∃ n : Nat, c = toString n) ∨ PlainLabel c
+
+theorem isIntLit_toString_nat (n : Nat) : isIntLit (toString n).toList = true := by
+  rw [← toString_natCast]; exact isIntLit_toString _
+
+theorem chromName_notNA (c : String) (h : ChromName c) : isNA c = false := by
+  rcases h with ⟨n, rfl⟩ | h
+  · exact isNA_of_isDigits _ (isDigits_toString_nat n)
+  · exact h.2.2
+
+theorem chromColumn_ok (cs : List String) (h : ∀ c ∈ cs, ChromName c) : chromColumn cs = .ok cs := by
+  unfold chromColumn
+  by_cases hall : cs.all (fun c => isIntLit c.toList) = true
+  · rw [if_pos hall]
+    congr 1
+    conv => rhs; rw [← List.map_id cs]
+    apply List.map_congr_left
+    intro c hc
+    rcases h c hc with ⟨n, rfl⟩ | hp
+    · rw [← toString_natCast, parseInt_toString]; rfl
+    · have := List.all_eq_true.mp hall c hc
+      rw [hp.1] at this
+      exact absurd this (by decide)
+  · rw [if_neg hall]
+    have hna : cs.any isNA = false := by
+      rw [List.any_eq_false]
+      intro c hc
+      rw [chromName_notNA c (h c hc)]; decide
+    rw [hna]
+    have hdec : cs.all (fun c => (parseDec c.toList).isSome) = false := by
+      cases hd : cs.all (fun c => (parseDec c.toList).isSome) with
+      | false => rfl
+      | true =>
+        exfalso
+        apply hall
+        rw [List.all_eq_true]
+        intro c hc
+        rcases h c hc with ⟨n, rfl⟩ | hp
+        · exact isIntLit_toString_nat n
+        · have := List.all_eq_true.mp hd c hc
+          rw [hp.2.1] at this
+          exact absurd this (by decide)
+    rw [hdec]
+    rfl
+
+theorem mkRows_map {α} (rows : List α) (c : α → String) (s e : α → Int) (fs : List (α → Cell)) :
+    mkRows (rows.map c) (rows.map s) (rows.map e) (fs.map fun f => rows.map f) =
+      rows.map fun r => ⟨c r, s r, e r, fs.map (· r)⟩ := by
+  induction rows with
+  | nil =>
+    cases fs <;> rfl
+  | cons a t ih =>
+    simp only [List.map_cons, mkRows, List.headD_cons, List.tail_cons, List.map_map, Function.comp_def]
+    rw [ih]
+
+theorem finish_strand_gene (rows : List FRow) :
+    finish false { names := ["strand", "gene"], rows := rows } =
+      .ok { names := ["gene", "strand"],
+            rows := sortF (rows.map fun r => { r with cols := [r.cols.getD 1 .na, r.cols.getD 0 .na] }) } := by
+  have h1 : sortNames ((["strand", "gene"] : List String).filter (fun n => !([] : List String).contains n))
+      = ["gene", "strand"] := by decide
+  have h2 : (["gene", "strand"] : List String).map (fun n => (["strand", "gene"] : List String).idxOf n) = [1, 0] := by
+    decide
+  unfold finish sortColumns
+  simp only [Bool.false_eq_true, ↓reduceIte, List.all_nil, Bool.not_true, h1, List.nil_append, h2, List.map_cons,
+    List.map_nil, bind, Except.bind, pure, Except.pure]
+
+theorem readInterval_lines {α} (rows : List α) (c : α → String) (s e : α → Int) (st g : α → String)
+    (hc : ∀ r ∈ rows, ChromName (c r) ∧ (c r).toList.contains '@' = false)
+    (hst : ∀ r ∈ rows, PlainLabel (st r) ∧ (st r).toList.contains '@' = false)
+    (hg : ∀ r ∈ rows, PlainLabel (g r) ∧ (g r).toList.contains '@' = false) :
+    readInterval (rows.map fun r => [c r, toString (s r), toString (e r), st r, g r]) =
+      .ok { names := ["strand", "gene"],
+            rows := rows.map fun r => ⟨c r, s r + READ_SHIFT_interval, e r, [.str (st r), .str (g r)]⟩ } := by
+  cases hrows : rows with
+  | nil => rfl
+  | cons r0 rest =>
+    rw [← hrows]
+    generalize hL : (rows.map fun r => [c r, toString (s r), toString (e r), st r, g r]) = L
+    have hmem : ∀ l ∈ L, ∃ r ∈ rows, l = [c r, toString (s r), toString (e r), st r, g r] := by
+      intro l hl
+      rw [← hL] at hl
+      obtain ⟨r, hr, rfl⟩ := List.mem_map.mp hl
+      exact ⟨r, hr, rfl⟩
+    have hdb : dropBlank L = L := by
+      unfold dropBlank
+      rw [List.filter_eq_self]
+      intro l hl
+      obtain ⟨r, _, rfl⟩ := hmem l hl
+      simp
+    have hat : L.filter (fun l => !sw "@" (l.headD "")) = L := by
+      rw [List.filter_eq_self]
+      intro l hl
+      obtain ⟨r, hr, rfl⟩ := hmem l hl
+      rw [List.headD_cons, sw_at_false _ (hc r hr).2]
+      rfl
+    have hany1 : L.any (fun l => l.any (fun f => f.toList.contains '@')) = false := by
+      rw [List.any_eq_false]
+      intro l hl
+      obtain ⟨r, hr, rfl⟩ := hmem l hl
+      simp only [List.any_cons, List.any_nil, (hc r hr).2, (hst r hr).2, (hg r hr).2, toString_no_at,
+        Bool.or_self, Bool.false_eq_true, not_false_eq_true]
+    have hany2 : L.any (fun l => l.length != 5) = false := by
+      rw [List.any_eq_false]
+      intro l hl
+      obtain ⟨r, hr, rfl⟩ := hmem l hl
+      simp
+    have hne : L.isEmpty = false := by
+      rw [← hL, hrows]; rfl
+    have hc0 : column 0 L = rows.map c := by
+      rw [← hL]; unfold column; rw [List.map_map]; rfl
+    have hc1 : column 1 L = rows.map (fun r => toString (s r)) := by
+      rw [← hL]; unfold column; rw [List.map_map]; rfl
+    have hc2 : column 2 L = rows.map (fun r => toString (e r)) := by
+      rw [← hL]; unfold column; rw [List.map_map]; rfl
+    have hc3 : column 3 L = rows.map st := by
+      rw [← hL]; unfold column; rw [List.map_map]; rfl
+    have hc4 : column 4 L = rows.map g := by
+      rw [← hL]; unfold column; rw [List.map_map]; rfl
+    have hcc : chromColumn (rows.map c) = .ok (rows.map c) := by
+      apply chromColumn_ok
+      intro x hx
+      obtain ⟨r, hr, rfl⟩ := List.mem_map.mp hx
+      exact (hc r hr).1
+    have hss : intColumn "start" (rows.map (fun r => toString (s r))) = .ok (rows.map s) := by
+      unfold intColumn
+      apply mapM_map_ok
+      intro r _
+      rw [parseInt_toString]
+    have hes : intColumn "end" (rows.map (fun r => toString (e r))) = .ok (rows.map e) := by
+      unfold intColumn
+      apply mapM_map_ok
+      intro r _
+      rw [parseInt_toString]
+    have hts : typeColumn (rows.map st) = rows.map (fun r => Cell.str (st r)) := by
+      rw [typeColumn_plain, List.map_map]; rfl
+      intro x hx
+      obtain ⟨r, hr, rfl⟩ := List.mem_map.mp hx
+      exact (hst r hr).1
+    have htg : typeColumn (rows.map g) = rows.map (fun r => Cell.str (g r)) := by
+      rw [typeColumn_plain, List.map_map]; rfl
+      intro x hx
+      obtain ⟨r, hr, rfl⟩ := List.mem_map.mp hx
+      exact (hg r hr).1
+    have hmk := mkRows_map rows c (fun r => s r + READ_SHIFT_interval) e
+      [fun r => Cell.str (st r), fun r => Cell.str (g r)]
+    unfold readInterval
+    simp only [hdb, hat, hany1, hany2, hne, hc0, hc1, hc2, hc3, hc4, hcc, hss, hes, hts, htg, bind, Except.bind,
+      pure, Except.pure, Bool.false_eq_true, ↓reduceIte, List.map_map, Function.comp_def]
+    simp only [List.map_cons, List.map_nil] at hmk
+    rw [hmk]
+
+def strandStr (t : FTab) (r : FRow) : String :=
+  match (colCell t "strand" r).getD (.str "+") with
+  | .str g => g
+  | _ => ""
+
+theorem strandStr_of {t : FTab} {r : FRow} {g : String}
+    (h : (colCell t "strand" r).getD (.str "+") = .str g) : strandStr t r = g := by
+  simp [strandStr, h]
+
+def WFInterval (t : FTab) : Prop :=
+  (∀ r ∈ t.rows, ChromName r.chrom ∧ r.chrom.toList.contains '@' = false) ∧
+  (∀ r ∈ t.rows, ∃ g, (colCell t "gene" r).getD (.str "-") = .str g ∧ PlainLabel g ∧ g.toList.contains '@' = false) ∧
+  (∀ r ∈ t.rows, ∃ g, (colCell t "strand" r).getD (.str "+") = .str g ∧ PlainLabel g ∧ g.toList.contains '@' = false)
+
+theorem renderLines_writeInterval (t : FTab) (h : WFInterval t) :
+    renderLines (writeInterval t) =
+      t.rows.map (fun r => [r.chrom, toString (r.s + WRITE_SHIFT_interval), toString r.e,
+        strandStr t r, geneStr t r]) := by
+  simp only [renderLines, writeInterval, List.map_map]
+  apply List.map_congr_left
+  intro r hr
+  obtain ⟨g, hg, _⟩ := h.2.1 r hr
+  obtain ⟨st, hst, _⟩ := h.2.2 r hr
+  simp [renderCellD, renderCell, cellOut, hg, hst, geneStr_of hg, strandStr_of hst]
+
+/-- interval list: `write_interval` (start + 1) then `read_interval` (start - 1) returns the same regions, gene and strand -/
+theorem interval_roundtrip (t : FTab) (h : WFInterval t) (sel : SampleSel) :
+    readFmt "interval" false sel (renderLines (writeInterval t)) =
+      .ok { names := ["gene", "strand"],
+            rows := sortF (t.rows.map fun r => ⟨r.chrom, r.s, r.e, [.str (geneStr t r), .str (strandStr t r)]⟩) } := by
+  have hshift : ∀ s : Int, s + WRITE_SHIFT_interval + READ_SHIFT_interval = s := by
+    intro s; simp only [WRITE_SHIFT_interval, READ_SHIFT_interval]; omega
+  have hread := readInterval_lines t.rows (fun r => r.chrom) (fun r => r.s + WRITE_SHIFT_interval) (fun r => r.e)
+    (strandStr t) (geneStr t) h.1
+    (by
+      intro r hr
+      obtain ⟨st, hst, h1, h2⟩ := h.2.2 r hr
+      rw [strandStr_of hst]; exact ⟨h1, h2⟩)
+    (by
+      intro r hr
+      obtain ⟨g, hg, h1, h2⟩ := h.2.1 r hr
+      rw [geneStr_of hg]; exact ⟨h1, h2⟩)
+  simp only [hshift] at hread
+  simp only [readFmt, renderLines_writeInterval t h, hread, bind, Except.bind]
+  rw [finish_strand_gene]
+  simp only [List.map_map, Function.comp_def, List.getD_cons_zero, List.getD_cons_succ]
+
+/-! ## tab-separated tables -/
+
+theorem getD_three {α} (a b c : α) (l : List α) (k : Nat) (d : α) :
+    (a :: b :: c :: l).getD (3 + k) d = l.getD k d := by
+  rw [Nat.add_comm]; rfl
+
+def cellInt : Cell → Int
+  | .int i => i
+  | _ => 0
+def cellStr : Cell → String
+  | .str g => g
+  | _ => ""
+
+/-- the line `write_tab` prints for a row -/
+def tabLine (r : FRow) : Line :=
+  r.chrom :: toString (r.s + WRITE_SHIFT_tab) :: toString r.e :: r.cols.map (fun c => renderCellD (cellOut c))
+
+theorem renderLines_writeTab (t : FTab) :
+    renderLines (writeTab t) = ("chromosome" :: "start" :: "end" :: t.names) :: t.rows.map tabLine := by
+  simp [renderLines, writeTab, renderCellD, renderCell, tabLine, Function.comp_def]
+
+/-- one extra column of a written table is typed back to the cells it was written from -/
+theorem typeColumn_tab (rows : List FRow) (k : Nat)
+    (hcol : (∀ r ∈ rows, ∃ i, r.cols[k]? = some (Cell.int i)) ∨
+      (∀ r ∈ rows, ∃ g, r.cols[k]? = some (Cell.str g) ∧ PlainLabel g)) :
+    typeColumn (column (3 + k) (rows.map tabLine)) = rows.map (fun r => r.cols.getD k .na) := by
+  unfold column
+  rw [List.map_map]
+  rcases hcol with hint | hstr
+  · have h1 : rows.map ((fun l : Line => l.getD (3 + k) "") ∘ tabLine) =
+        (rows.map (fun r => cellInt (r.cols.getD k .na))).map toString := by
+      rw [List.map_map]
+      apply List.map_congr_left
+      intro r hr
+      obtain ⟨i, hi⟩ := hint r hr
+      simp only [Function.comp_def, tabLine, getD_three]
+      simp only [List.getD_eq_getElem?_getD, List.getElem?_map, hi]
+      rfl
+    rw [h1, typeColumn_ints, List.map_map]
+    apply List.map_congr_left
+    intro r hr
+    obtain ⟨i, hi⟩ := hint r hr
+    simp only [Function.comp_def, List.getD_eq_getElem?_getD, hi]
+    rfl
+  · have h1 : rows.map ((fun l : Line => l.getD (3 + k) "") ∘ tabLine) =
+        rows.map (fun r => cellStr (r.cols.getD k .na)) := by
+      apply List.map_congr_left
+      intro r hr
+      obtain ⟨g, hg, _⟩ := hstr r hr
+      simp only [Function.comp_def, tabLine, getD_three]
+      simp only [List.getD_eq_getElem?_getD, List.getElem?_map, hg]
+      rfl
+    rw [h1, typeColumn_plain, List.map_map]
+    · apply List.map_congr_left
+      intro r hr
+      obtain ⟨g, hg, _⟩ := hstr r hr
+      simp only [Function.comp_def, List.getD_eq_getElem?_getD, hg]
+      rfl
+    · intro v hv
+      obtain ⟨r, hr, rfl⟩ := List.mem_map.mp hv
+      obtain ⟨g, hg, hp⟩ := hstr r hr
+      simp only [List.getD_eq_getElem?_getD, hg]
+      exact hp
+
+theorem readTab_lines (names : List String) (rows : List FRow)
+    (hnames : ∀ n ∈ names, n ≠ "chromosome" ∧ n ≠ "start" ∧ n ≠ "end")
+    (hrows : ∀ r ∈ rows, isNA r.chrom = false ∧ r.cols.length = names.length)
+    (hcols : ∀ j, j < names.length →
+      (∀ r ∈ rows, ∃ i, r.cols[j]? = some (Cell.int i)) ∨
+      (∀ r ∈ rows, ∃ g, r.cols[j]? = some (Cell.str g) ∧ PlainLabel g)) :
+    readTab (("chromosome" :: "start" :: "end" :: names) :: rows.map tabLine) =
+      .ok { names := names,
+            rows := rows.map fun r => ⟨r.chrom, r.s + WRITE_SHIFT_tab + READ_SHIFT_tab, r.e, r.cols⟩ } := by
+  generalize hhdr : ("chromosome" :: "start" :: "end" :: names) = hdr
+  generalize hbody : rows.map tabLine = body
+  have hlen : hdr.length = 3 + names.length := by rw [← hhdr]; simp; omega
+  have hdb : dropBlank (hdr :: body) = hdr :: body := by
+    unfold dropBlank
+    rw [List.filter_eq_self]
+    intro l hl
+    rcases List.mem_cons.mp hl with rfl | hl
+    · rw [← hhdr]; simp
+    · rw [← hbody] at hl
+      obtain ⟨r, _, rfl⟩ := List.mem_map.mp hl
+      simp [tabLine]
+  have hreq : (["chromosome", "start", "end"].all hdr.contains) = true := by
+    rw [← hhdr]; simp
+  have hrag : body.any (fun l => l.length != hdr.length) = false := by
+    rw [List.any_eq_false]
+    intro l hl
+    rw [← hbody] at hl
+    obtain ⟨r, hr, rfl⟩ := List.mem_map.mp hl
+    rw [hlen]
+    simp [tabLine, (hrows r hr).2]; omega
+  have hi0 : hdr.idxOf "chromosome" = 0 := by rw [← hhdr]; simp
+  have hi1 : hdr.idxOf "start" = 1 := by rw [← hhdr]; simp [List.idxOf_cons]
+  have hi2 : hdr.idxOf "end" = 2 := by rw [← hhdr]; simp [List.idxOf_cons]
+  have hc0 : column 0 body = rows.map (fun r => r.chrom) := by
+    rw [← hbody]; unfold column; rw [List.map_map]; rfl
+  have hc1 : column 1 body = rows.map (fun r => toString (r.s + WRITE_SHIFT_tab)) := by
+    rw [← hbody]; unfold column; rw [List.map_map]; rfl
+  have hc2 : column 2 body = rows.map (fun r => toString r.e) := by
+    rw [← hbody]; unfold column; rw [List.map_map]; rfl
+  have hna : (rows.map (fun r => r.chrom)).any isNA = false := by
+    rw [List.any_eq_false]
+    intro c hc
+    obtain ⟨r, hr, rfl⟩ := List.mem_map.mp hc
+    rw [(hrows r hr).1]; decide
+  have hss : intColumn "start" (rows.map (fun r => toString (r.s + WRITE_SHIFT_tab))) =
+      .ok (rows.map (fun r => r.s + WRITE_SHIFT_tab)) := by
+    unfold intColumn
+    apply mapM_map_ok
+    intro r _
+    rw [parseInt_toString]
+  have hes : intColumn "end" (rows.map (fun r => toString r.e)) = .ok (rows.map (fun r => r.e)) := by
+    unfold intColumn
+    apply mapM_map_ok
+    intro r _
+    rw [parseInt_toString]
+  have hidx : (List.range hdr.length).filter
+      (fun j => !["chromosome", "start", "end"].contains (hdr.getD j "")) =
+      (List.range names.length).map (3 + ·) := by
+    rw [hlen, List.range_add, List.filter_append]
+    have h3 : List.range 3 = [0, 1, 2] := by decide
+    have hA : (List.range 3).filter (fun j => !["chromosome", "start", "end"].contains (hdr.getD j "")) = [] := by
+      rw [h3, ← hhdr]; simp
+    have hB : ((List.range names.length).map (3 + ·)).filter
+        (fun j => !["chromosome", "start", "end"].contains (hdr.getD j "")) =
+        (List.range names.length).map (3 + ·) := by
+      rw [List.filter_eq_self]
+      intro j hj
+      obtain ⟨k, hk, rfl⟩ := List.mem_map.mp hj
+      have hk' : k < names.length := List.mem_range.mp hk
+      rw [← hhdr, getD_three, List.getD_eq_getElem?_getD, List.getElem?_eq_getElem hk']
+      have hm := hnames names[k] (List.getElem_mem hk')
+      simp [hm.1, hm.2.1, hm.2.2]
+    rw [hA, hB, List.nil_append]
+  have hnm : ((List.range names.length).map (3 + ·)).map (fun j => hdr.getD j "") = names := by
+    rw [List.map_map, ← hhdr]
+    simp only [Function.comp_def, getD_three]
+    exact range_map_getD names "" _ rfl
+  have hextra : ((List.range names.length).map (3 + ·)).map (fun j => typeColumn (column j body)) =
+      ((List.range names.length).map (fun k => fun r : FRow => r.cols.getD k .na)).map (fun f => rows.map f) := by
+    rw [List.map_map, List.map_map]
+    apply List.map_congr_left
+    intro k hk
+    have hk' : k < names.length := List.mem_range.mp hk
+    simp only [Function.comp_def]
+    rw [← hbody]
+    exact typeColumn_tab rows k (hcols k hk')
+  have hmk := mkRows_map rows (fun r => r.chrom) (fun r => r.s + WRITE_SHIFT_tab + READ_SHIFT_tab) (fun r => r.e)
+    ((List.range names.length).map (fun k => fun r : FRow => r.cols.getD k .na))
+  have hrowsEq : (rows.map fun r => (⟨r.chrom, r.s + WRITE_SHIFT_tab + READ_SHIFT_tab, r.e,
+      ((List.range names.length).map (fun k => fun r : FRow => r.cols.getD k .na)).map (· r)⟩ : FRow)) =
+      rows.map fun r => ⟨r.chrom, r.s + WRITE_SHIFT_tab + READ_SHIFT_tab, r.e, r.cols⟩ := by
+    apply List.map_congr_left
+    intro r hr
+    rw [List.map_map]
+    simp only [Function.comp_def]
+    rw [range_map_getD _ _ _ (hrows r hr).2]
+  rw [hrowsEq] at hmk
+  have hfilt : (rows.map fun r => (⟨r.chrom, r.s + WRITE_SHIFT_tab + READ_SHIFT_tab, r.e, r.cols⟩ : FRow)).filter
+      (fun r => r.cols.getD (names.idxOf "log2") .na != .na) =
+      (rows.map fun r => (⟨r.chrom, r.s + WRITE_SHIFT_tab + READ_SHIFT_tab, r.e, r.cols⟩ : FRow)) ∨
+      names.contains "log2" = false := by
+    cases hct : names.contains "log2" with
+    | false => right; rfl
+    | true =>
+      left
+      have hli : names.idxOf "log2" < names.length :=
+        List.idxOf_lt_length_of_mem (List.contains_iff_mem.mp hct)
+      rw [List.filter_eq_self]
+      intro x hx
+      obtain ⟨r, hr, rfl⟩ := List.mem_map.mp hx
+      rcases hcols _ hli with h1 | h1
+      · obtain ⟨i, hi⟩ := h1 r hr
+        simp only [List.getD_eq_getElem?_getD, hi]; rfl
+      · obtain ⟨g, hg, _⟩ := h1 r hr
+        simp only [List.getD_eq_getElem?_getD, hg]; rfl
+  unfold readTab
+  simp only [hdb, hreq, hrag, hi0, hi1, hi2, hc0, hc1, hc2, hna, hss, hes, hidx, hnm, hextra, bind, Except.bind,
+    pure, Except.pure, Bool.false_eq_true, ↓reduceIte, Bool.not_true, List.map_map, Function.comp_def]
+  simp only [List.map_map, Function.comp_def] at hmk
+  rw [hmk]
+  rcases hfilt with h1 | h1
+  · rw [h1, ite_self]
+  · rw [h1]; rfl
+
+/-- tab-separated CNVkit tables whose extra columns hold integers or plain strings -/
+def WFTab (t : FTab) : Prop :=
+  t.names.Nodup ∧ sortNames t.names = t.names ∧
+  (∀ n ∈ t.names, n ≠ "chromosome" ∧ n ≠ "start" ∧ n ≠ "end") ∧
+  (∀ r ∈ t.rows, isNA r.chrom = false ∧ r.cols.length = t.names.length) ∧
+  (∀ j, j < t.names.length →
+      (∀ r ∈ t.rows, ∃ i, r.cols[j]? = some (Cell.int i)) ∨
+      (∀ r ∈ t.rows, ∃ g, r.cols[j]? = some (Cell.str g) ∧ PlainLabel g))
+
+/-- tab: writing then reading returns the identical table (coordinates, names, integer columns), sorted -/
+theorem tab_roundtrip (t : FTab) (h : WFTab t) (sel : SampleSel) :
+    readFmt "tab" false sel (renderLines (writeTab t)) = .ok { names := t.names, rows := sortF t.rows } := by
+  obtain ⟨hnd, hs, hnames, hrows, hcols⟩ := h
+  have hshift : ∀ s : Int, s + WRITE_SHIFT_tab + READ_SHIFT_tab = s := by
+    intro s; simp only [WRITE_SHIFT_tab, READ_SHIFT_tab]; omega
+  have hread := readTab_lines t.names t.rows hnames hrows hcols
+  have hid : (t.rows.map fun r => (⟨r.chrom, r.s + WRITE_SHIFT_tab + READ_SHIFT_tab, r.e, r.cols⟩ : FRow)) = t.rows := by
+    conv => rhs; rw [← List.map_id t.rows]
+    apply List.map_congr_left
+    intro r _
+    rw [hshift]; rfl
+  rw [hid] at hread
+  simp only [readFmt, renderLines_writeTab, hread, bind, Except.bind]
+  exact finish_ga_id { names := t.names, rows := t.rows } hnd hs (fun r hr => (hrows r hr).2)
+
 end CnvVerif.Fmt
